@@ -31,6 +31,12 @@ var PropertyGroups = map[string]string{
 	"C01": "every paired declaration of vm, vm/runtime, core",
 	"C02": "vm: all of gas.go, gas_table.go, operations_acl.go, memory_table.go, common.go, jump_table.go; contract.go UseGas; interpreter.go (*EVMInterpreter).Run; evm.go (*EVM).{Call,CallCode,DelegateCall,StaticCall,create,Create,Create2}; contracts.go RunPrecompiledContract and every RequiredGas; eips.go enable*/EnableEIP/activators; instructions.go opCall, opCallCode, opDelegateCall, opStaticCall, opCreate, opCreate2",
 	"C15": "vm: eips.go enable1153, opTload, opTstore; all of interpreter.go",
+	"C04": "vm: the frame functions Call, CallCode, DelegateCall, StaticCall, create, Create, Create2 and the call/create opcodes (they push 0 when the frame failed); interpreter Run",
+	"C08": "vm: the frame functions and the call/create opcodes (what is handed to the call tree is what the program passed)",
+	"C10": "vm: contract.go (Contract.Address, AsDelegate, NewContract) and the frame functions (which account reference a frame's contract gets)",
+	"C13": "vm frame functions; core/evm.go (CanTransfer, Transfer)",
+	"C19": "every paired declaration of tracers/native",
+	"C20": "every paired function of vm: upstream instructions and precompiles inherit the reference gas/work schedule",
 	"C18": "every paired declaration of tracers, tracers/logger, tracers/native; vm/logger.go; every vm function whose body calls an EVMLogger hook (CaptureStart/End/Enter/Exit/State/Fault/TxStart/TxEnd)",
 }
 
@@ -87,6 +93,31 @@ func propsFor(rel string, u *Unit) []string {
 		if u.FuncName != "" && callsTracerHook(u.Node) {
 			set["C18"] = true
 		}
+	}
+	// properties whose contracts lean on upstream-identical code: that code is tied to the reference by EQ
+	if rel == "vm" {
+		f := u.File
+		if f == "evm.go" && u.Recv == "EVM" && c02Frames[u.FuncName] {
+			set["C04"], set["C08"], set["C10"], set["C13"] = true, true, true, true
+		}
+		if f == "instructions.go" && c02Instr[u.FuncName] {
+			set["C04"], set["C08"] = true, true
+		}
+		if f == "contract.go" {
+			set["C10"] = true
+		}
+		if f == "interpreter.go" && u.Recv == "EVMInterpreter" && u.FuncName == "Run" {
+			set["C03"], set["C04"], set["C07"] = true, true, true
+		}
+		if u.FuncName != "" {
+			set["C20"] = true
+		}
+	}
+	if rel == "core" {
+		set["C13"] = true
+	}
+	if rel == "tracers/native" {
+		set["C19"] = true
 	}
 	var out []string
 	for k := range set {
